@@ -29,6 +29,18 @@ def int_to_str(c: Cell) -> Cell:
     return Cell(STR, c.null, s)
 
 
+def real_to_str(c: Cell) -> Cell:
+    """decimal text of a quarter-dyadic real (the float domain of DESIGN 4.4): both engines
+    print the shortest round-trip form, i.e. '3.0', '3.25', '3.5', '3.75', '-0.25'."""
+    x = c.val
+    ax = K.If(x >= 0, x, -x)
+    ip = z3.ToInt(ax)
+    q = z3.ToInt(ax * 4) - 4 * ip
+    frac = K.If(q == 0, z3.StringVal("0"), K.If(q == 1, z3.StringVal("25"), K.If(q == 2, z3.StringVal("5"), z3.StringVal("75"))))
+    body = z3.Concat(z3.IntToStr(ip), z3.StringVal("."), frac)
+    return Cell(STR, c.null, K.If(x < 0, z3.Concat(z3.StringVal("-"), body), body))
+
+
 DIGITS = z3.Plus(z3.Range("0", "9"))
 NUMERAL = z3.Concat(z3.Option(z3.Union(z3.Re("-"), z3.Re("+"))), DIGITS)
 
